@@ -212,6 +212,78 @@ Section AnswerSound.
     - refine (proj1 (verify_dnssec_sound_lemma (honest s) (zsigned s) E s resp ds Ero (Hprov s ds Hfd) _ (Hforge s _) Hvd)).
       destruct (own_query s resp); [split; [apply Hforge|apply Hkeys]|apply Hstore].
   Qed.
+
+  Lemma lookup_ds_ok E n cd m : lookup_ds E n cd = Ok m -> e_ds E n cd = LMsg m.
+  Proof.
+    unfold lookup_ds. destruct (e_ds E n cd) as [i|m0]; [discriminate|].
+    destruct (m_ans m0), (m_ns m0); try discriminate; intros H; injection H as <-; reflexivity.
+  Qed.
+
+  (* where findDS takes the signer's DS set from *)
+  Lemma find_ds_signer_cases E s qname pds ds :
+    find_ds E (Some s) qname pds false = Ok ds ->
+    (s = [] /\ pds = [] /\ ds_from_root_keys E = Ok ds) \/
+    (pds = [] /\ ds = []) \/
+    (exists d rest, pds = d :: rest /\ r_owner d = s /\ ds = pds) \/
+    (exists d rest dm, pds = d :: rest /\ r_owner d <> s /\ e_ds E s false = LMsg dm /\
+                       ds = extract (m_ans dm) (Some s) T_DS).
+  Proof.
+    unfold find_ds. destruct s as [|l0 sl]; destruct pds as [|d rest]; intros H.
+    - left. auto.
+    - destruct (name_eqb (r_owner d) []) eqn:En.
+      + apply name_eqb_eq in En. injection H as <-. right. right. left. eauto.
+      + right. right. right. destruct (lookup_ds E [] false) as [e|dm] eqn:El; [discriminate|]. injection H as <-.
+        apply lookup_ds_ok in El.
+        exists d, rest, dm. split; [reflexivity|]. split; [intros Hc; rewrite Hc, name_eqb_refl in En; discriminate|]. split; [exact El|reflexivity].
+    - injection H as <-. right. left. auto.
+    - destruct (name_eqb (r_owner d) (l0 :: sl)) eqn:En.
+      + apply name_eqb_eq in En. injection H as <-. right. right. left. eauto.
+      + right. right. right. destruct (lookup_ds E (l0 :: sl) false) as [e|dm] eqn:El; [discriminate|]. injection H as <-.
+        apply lookup_ds_ok in El.
+        exists d, rest, dm. split; [reflexivity|]. split; [intros Hc; rewrite Hc, name_eqb_refl in En; discriminate|]. split; [exact El|reflexivity].
+  Qed.
+
+  (* answer_ad_sound with the DS provenance split by source: the only thing the code does not supply is
+     that the sub-query DS answer used as a trust link carried AD (F9) *)
+  Theorem answer_ad_sound_min_lemma E qname qtype cd resp0 pds zone m :
+    let resp := bailiwick zone resp0 in
+    (forall z l, unforgeable (honest z) (zsigned z) l) ->
+    (forall z l, publishes_own_keys (honest z) (zsigned z) l) ->
+    (forall k, In k (e_anchors E) -> honest [] (k_mat k)) ->
+    (* descent invariant: the inherited DS set is authentic for the zone it names (chain_sound_depth, referral_ds_authentic) *)
+    (forall d rest, pds = d :: rest -> forall d' k, In d' pds -> ds_binds d' k -> honest (r_owner d) (k_mat k)) ->
+    (* store invariants: what was stored went through the validator (chain_sound; this theorem, recursively, for DS questions) *)
+    (forall z km, e_key E z = LMsg km -> forall k, In k (keys_of_msg z km) -> honest z (k_mat k)) ->
+    (forall z dm, e_ds E z false = LMsg dm -> m_ad dm = true ->
+       forall d k, In d (extract (m_ans dm) (Some z) T_DS) -> ds_binds d k -> honest z (k_mat k)) ->
+    (* F9, and only this: a DS answer fetched for a signer other than the owner of the DS set in hand is
+       used as a trust link only if it was authenticated *)
+    (forall s d rest dm, pds = d :: rest -> r_owner d <> s -> e_ds E s false = LMsg dm ->
+       extract (m_ans dm) (Some s) T_DS <> [] -> m_ad dm = true) ->
+    dname_target resp = None ->
+    validate_answer E qname qtype cd resp0 pds zone = Accept m -> m_ad resp0 = false -> m_ad m = true ->
+    exists s, in_zone qname s = true /\
+      let dn := dnames_of s (m_ans resp) (m_ns resp) in
+      forall r, In r (m_ans resp) -> is_sig r = false -> is_synth dn r = false ->
+        in_zone (r_owner r) s = true /\
+        exists set, vouched_set (zsigned s) (e_now E) s (m_ans resp) (m_ns resp) dn r set.
+  Proof.
+    intros resp Hforge Hkeys Hanch Hpds Hstore Hstoreds HF9 Hdn Hv Hin Had.
+    destruct (answer_ad_core E qname qtype cd resp pds zone m Hdn Hv Hin Had) as (_ & _ & s & ds & _ & Hz & Hfd & Hne & Hvd & _).
+    exists s. split; [exact Hz|]. cbn zeta.
+    assert (Hauth : forall d k, In d ds -> ds_binds d k -> honest s (k_mat k)).
+    { destruct (find_ds_signer_cases E s qname pds ds Hfd) as [(-> & _ & Hr)|[(_ & ->)|[(d & rest & Hp & Ho & ->)|(d & rest & dm & Hp & Ho & Hd & ->)]]].
+      - exact (root_ds_authentic honest E ds Hanch Hr).
+      - contradiction.
+      - intros d' k Hd' Hb. rewrite <- Ho. eapply Hpds; eauto.
+      - intros d' k Hd' Hb. eapply Hstoreds; eauto; eapply HF9; eauto. }
+    destruct (root_own s resp) eqn:Ero.
+    - assert (s = []) as -> by (unfold root_own in Ero; apply andb_true_iff in Ero as [_ E1]; destruct s; [reflexivity|discriminate]).
+      rewrite (verify_dnssec_root_own E resp ds Ero) in Hvd.
+      exact (proj1 (verify_root_keys_sound (honest []) (zsigned []) E resp Hanch (Hforge [] _) Hvd)).
+    - refine (proj1 (verify_dnssec_sound_lemma (honest s) (zsigned s) E s resp ds Ero Hauth _ (Hforge s _) Hvd)).
+      destruct (own_query s resp); [split; [apply Hforge|apply Hkeys]|apply Hstore].
+  Qed.
 End AnswerSound.
 
 (* unsigned data is accepted only when the zone is not secure or an insecure delegation is proven *)
